@@ -112,6 +112,7 @@ package set
 //@   ensures {C16} wrongtype: len(params.Command) >= 3 && old(tlive(params, tkey(params))) && !old(isset(tval(params, tkey(params)))) ==> result1 != nil && tval(params, tkey(params)) == old(tval(params, tkey(params)))
 //@   ensures {C16} added: result1 == nil && onset(params, tkey(params)) ==> tval(params, tkey(params)) == old(tval(params, tkey(params))) && (forall x string :: has(asset(tval(params, tkey(params))).members, x) <==> (old(has(asset(tval(params, tkey(params))).members, x)) || tnamed(params, x, 2))) && bstr(result0) == ":" ++ (itoa(len(asset(tval(params, tkey(params))).members) - old(len(asset(tval(params, tkey(params))).members))) ++ "\r\n")
 //@   ensures {C16,C20} others: tothers(params, tkey(params), tkey(params))
+//@   ensures {C19} growth-accounted: result1 == nil && onset(params, tkey(params)) && len(asset(tval(params, tkey(params))).members) > old(len(asset(tval(params, tkey(params))).members)) ==> $srv.memUsed > old($srv.memUsed)
 
 // SREM key member [member ...]: the named members go; the reply is the number removed.
 //@ func handleSREM props C16,C12
